@@ -740,3 +740,31 @@ pub fn string_sig_class(s: &str) -> String {
         c.iter().map(|x| &x[4..]).collect::<Vec<_>>().join("+")
     }
 }
+
+/// A value nested `depth` containers deep: the container kind of each level is chosen by `kinds` (0 list, 1 dict,
+/// 2 grid, 3 a grid-meta tag, 4 a column-meta tag), the innermost value is a small scalar. Used by the deep-chain
+/// streams: the decoders accept 127 nested containers (128 is their documented limit).
+pub fn deep_chain(rng: &mut Rng, depth: usize, kinds: &[u8]) -> MVal {
+    let mut v = match rng.below(4) {
+        0 => MVal::Num(F(1.5), None),
+        1 => MVal::Str("x".into()),
+        2 => MVal::Marker,
+        _ => MVal::Ref("r".into(), Some("d".into())),
+    };
+    for level in 0..depth {
+        let k = kinds[(level + rng.below(kinds.len())) % kinds.len()];
+        let one = |v: MVal| -> MDict {
+            let mut d = MDict::new();
+            d.insert("a".into(), v);
+            d
+        };
+        v = match k {
+            0 => MVal::List(vec![v]),
+            1 => MVal::Dict(one(v)),
+            2 => MVal::Grid(Box::new(MGrid { meta: MDict::new(), cols: vec![MCol { name: "a".into(), meta: MDict::new() }], rows: vec![one(v)] })),
+            3 => MVal::Grid(Box::new(MGrid { meta: one(v), cols: vec![MCol { name: "b".into(), meta: MDict::new() }], rows: vec![] })),
+            _ => MVal::Grid(Box::new(MGrid { meta: MDict::new(), cols: vec![MCol { name: "b".into(), meta: one(v) }], rows: vec![] })),
+        };
+    }
+    v
+}
